@@ -223,6 +223,30 @@ def task(t):
         r["base"] = public(base)
     if not base["accepted"]:
         r["base_files"] = base_files
+        if base.get("run_exit") is not None or base["timed_out"]:
+            return r        # its executable died by a signal / the compiler hung: discarded
+        # The base order is rejected (or crashes the compiler). Order-independence cuts both
+        # ways: if *any* other order of the same program is accepted, acceptance depends on the
+        # order. Look for one; it then plays the part of the reference and the base order is the
+        # diverging one ("swapped").
+        for j in range(k):
+            variant = gen.place_imports(prog, gen.random_variant(prog, rnd, max_files), rnd)
+            files = gen.render(prog, variant)
+            var = build_and_run(bx, files)
+            r["variants"] += 1
+            if var["accepted"] and var["run_exit"] is not None and var["run_exit"] >= 0:
+                d = compare(var, base)
+                r["divergences"].append({
+                    "variant_index": j,
+                    "class": d or "variant-rejected",
+                    "swapped": True,
+                    "variant": variant.to_json(),
+                    "variant_files": base_files,       # the order that fails: the base order
+                    "base_files": files,               # the order that is accepted
+                    "base": public(var),
+                    "var": public(base),
+                })
+                break
         return r
     for j in range(k):
         variant = gen.place_imports(prog, gen.random_variant(prog, rnd, max_files), rnd)
@@ -280,7 +304,9 @@ def minimise(seed, idx, div, budget=120):
     if "use_core" in prog.features:
         bx.use_real_core()
     order = [list(f) for f in div["variant"]["order"]]
+    via = {(a, b): c for a, b, c in div["variant"].get("via", [])}
     cls = div["class"]
+    swapped = bool(div.get("swapped"))
     trials = [0]
 
     def diverges(p, ordr):
@@ -289,9 +315,12 @@ def minimise(seed, idx, div, budget=120):
         trials[0] += 1
         try:
             bf = gen.render(p, gen.base_variant(p))
-            vf = gen.render(p, gen.Variant(ordr))
+            vf = gen.render(p, gen.Variant(ordr, via if len(ordr) == 3 else None))
         except KeyError:
             return None
+        if swapped:
+            # the accepted order is the variant, the failing one the base order
+            bf, vf = vf, bf
         b = build_and_run(bx, bf, want_trace=False)
         if not b["accepted"]:
             return None
@@ -318,7 +347,7 @@ def minimise(seed, idx, div, budget=120):
                 prog, order, best = p2, o2, got
                 progress = True
     # 2. fewer files: move everything into the entry file, keeping relative order
-    if len(order) > 1 and trials[0] < budget:
+    if len(order) > 1 and trials[0] < budget and not getattr(prog, "pins", None):
         merged = [[n for f in order for n in f if not n.startswith("@")]]
         got = diverges(prog, merged)
         if got:
@@ -356,6 +385,7 @@ def minimise(seed, idx, div, budget=120):
         "variant_outcome": public(v),
         "minimisation_trials": trials[0],
         "original_variant_files": div["variant_files"],
+        "swapped": swapped,
     }
 
 
@@ -433,6 +463,12 @@ def main(tier, seed, replay_path=None):
     groups = {}
     for idx, klass, d in violations:
         first = (d["var"]["errors"] or ["-"])[0]
+        if first == "-":
+            # a compiler crash has no diagnostic; tell crashes apart by where they panicked
+            m = re.search(r"panicked at ([^\n]*)", (d["var"].get("compile_stderr_tail") or "")
+                          + (d["var"].get("compile_stdout_tail") or ""))
+            if m:
+                first = "panicked at " + re.sub(r":\d+:\d+:?$", "", m.group(1).strip())
         key = (d["class"], re.sub(r"`[^`]*`", "`_`", first))
         groups.setdefault(key, []).append((idx, klass, d))
     reported = []
